@@ -29,6 +29,7 @@ func init() {
 	register("C13", checkC13)
 	register("C07", checkC07)
 	register("C08", checkC08)
+	register("C02", checkC02)
 }
 
 func main() {
